@@ -162,6 +162,8 @@ type Sim struct {
 	// MaxSteps bounds the controller steps of one run; exceeding it is
 	// reported as a livelock/storm instead of running (and allocating) forever.
 	MaxSteps int64
+	MaxEmits int // emitted-datagram budget of one run (storm detector)
+	emits    int
 	overrun  bool
 	abort    *atomic.Bool // set by the real-time watchdog when the run takes too long
 	opsLive  atomic.Int64
@@ -185,6 +187,7 @@ func NewSim(ch *Chooser, stepCtr *atomic.Int64) *Sim {
 		ctlGoid:  runtime.VerifGoid(),
 		KeepLog:  true,
 		MaxSteps: 120_000,
+		MaxEmits: 6000,
 	}
 	verifhook.H = s
 
